@@ -39,6 +39,13 @@
                                                                        (an event already buffered at position p: within p+1 iterations), eventual_dispatch_total
                                                                        (for every sufficiently large fuel, environment hypothesis Env);
                                                                        supporting: eventual_dispatch_partial_buffered, eventual_dispatch_partial_progress
+   (round 5) a timer is activated once per interval: the loop comes     wait_timeout_nonnegative (under Env every wait of the model has a time-out >= 0 - a negative
+   back from its wait                                                  one means "block without limit" for epoll_wait; tmon's one-sided clause and
+                                                                       timer_wait_not_past_due are satisfied by a negative time-out), wait_monitor_accepts (wmon)
+   (round 5) a failed read or write is followed by onClosed, TEXT      closed_clause_text_level (every log that cmon accepts - answered before the next wait or
+   level: before the loop has waited twice                             dispatch - is accepted by cmt), closed_clause_text_level_accepted (the model's log)
+   (round 5) every registered socket ... is eventually dispatched:     socket_stays_registered (kmon: epoll_ctl DEL only as part of a removal, a connect dispatch or a
+   it stays in the poll set                                            closing, or for a client the application gave up); model_log_accepted_text_level (all six)
    (termination of one iteration - needed by the two liveness clauses) timer_phase_terminates (explicit fuel bound tlag+1), closing_phase_terminates (explicit
                                                                        fuel bound cmeas+1), more_fuel_same_run, enough_fuel_exists, run_always_returns,
                                                                        environment_hypothesis_reachable
@@ -85,8 +92,8 @@
    * timer_wait_not_past_due is relative to the clock value the loop sampled at the start of the iteration: time spent inside
      callbacks of that iteration is not accounted for (neither by the code nor by the clause).  *)
 From Coq Require Import ZArith List Bool.
-From ServerLoop Require Import ServerLoopSpec ServerLoopModel ServerLoopInv ServerLoopCb ServerLoopBuf ServerLoopCplC ServerLoopDerived
-  ServerLoopTerm ServerLoopLiveBase ServerLoopKeep ServerLoopLive ServerLoopFuel.
+From ServerLoop Require Import ServerLoopSpec ServerLoopSpecMore ServerLoopModel ServerLoopInv ServerLoopCb ServerLoopBuf ServerLoopCplC ServerLoopDerived
+  ServerLoopTerm ServerLoopLiveBase ServerLoopKeep ServerLoopLive ServerLoopFuel ServerLoopMore.
 Import ListNotations.
 Local Open Scope Z_scope.
 
@@ -215,6 +222,11 @@ Theorem enough_fuel_exists : forall items s, SInv s -> Env s -> stuck s = false 
 Proof. exact enough_fuel_l. Qed.
 Print Assumptions enough_fuel_exists.
 
+(* NOTE (round 5): enough_fuel_exists and run_always_returns are statements about the MODEL'S ENVIRONMENT, not about Server::run: the
+   epoll script [items] is a finite list and when it has run out the model's epoll_wait lets "another thread" call interrupt()
+   (ServerLoopModel.epoll_wait, items = []).  That injected interrupt is what makes every run() of the model come back; the property
+   text says run() "never returns otherwise", and run_returns_only_after_interrupt is the theorem for that.  What these two theorems
+   give is: a run is never cut off by fuel (stuck = false) once the fuel is large enough - fuel is only a proof device. *)
 Theorem run_always_returns : forall items s, SInv s -> Env s -> stuck s = false ->
   exists F, forall fuel, (F <= fuel)%nat -> exists tr', trace (run_loop fuel items s) = EvRunRet :: tr'.
 Proof. exact run_returns_total_l. Qed.
@@ -268,6 +280,41 @@ Theorem interrupt_makes_run_return_total : forall items s,
     exists mid, trace (run_loop fuel items s) = EvRunRet :: mid ++ trace s /\ (count_now mid <= S (length (selected s)))%nat.
 Proof. exact interrupt_returns_total_l. Qed.
 Print Assumptions interrupt_makes_run_return_total.
+
+(* ---------- round 5: the monitors of ServerLoopSpecMore ---------- *)
+(* under the environment hypothesis (every timer interval > 0, no callback sets the clock back: op_okb, the boolean the reachability
+   theorem environment_hypothesis_reachable uses) the time-out of every wait is >= 0.  Without the hypothesis the statement is false
+   in the model AND in the code: a timer with a negative interval created in onClosed is due before the sampled now. *)
+Theorem wait_timeout_nonnegative : forall fuel ops, forallb op_okb ops = true ->
+  forall later t earlier, trace (steps fuel init ops) = later ++ EvWait t :: earlier -> 0 <= t.
+Proof. exact wait_nonneg_l. Qed.
+Print Assumptions wait_timeout_nonnegative.
+
+Theorem wait_monitor_accepts : forall fuel ops, forallb op_okb ops = true -> is_some (wmon_run (trace (steps fuel init ops))) = true.
+Proof. exact wmon_accepts_l. Qed.
+Print Assumptions wait_monitor_accepts.
+
+(* the clause the check judges the implementation with (cmt: answered before the loop has waited twice) is implied by the clause
+   the model satisfies (cmon: answered before the next wait or dispatch) *)
+Theorem closed_clause_text_level : forall tr, is_some (cmon_run tr) = true -> is_some (cmt_run tr) = true.
+Proof. exact cmon_implies_cmt. Qed.
+Print Assumptions closed_clause_text_level.
+
+Theorem closed_clause_text_level_accepted : forall fuel ops, is_some (cmt_run (trace (steps fuel init ops))) = true.
+Proof. exact cmt_accepts_l. Qed.
+Print Assumptions closed_clause_text_level_accepted.
+
+(* a listener, establisher or client stays in the poll set: the model unregisters a socket (epoll_ctl DEL) only as part of its removal
+   (next event: removed), of its connect dispatch (next event: the SO_ERROR query), of its closing after a failed send of the loop (next
+   event: its onClosed), or after the application gave it up inside its announcement (deferred / declined) - kmon of ServerLoopSpecMore *)
+Theorem socket_stays_registered : forall fuel ops, is_some (kmon_run (trace (steps fuel init ops))) = true.
+Proof. exact kmon_accepts_l. Qed.
+Print Assumptions socket_stays_registered.
+
+(* the six monitors the check applies to the implementation's own log (tmon rmon cmt imon wmon kmon) accept the model's log *)
+Theorem model_log_accepted_text_level : forall fuel ops, forallb op_okb ops = true -> accepts_text (trace (steps fuel init ops)) = true.
+Proof. exact model_accepted_text. Qed.
+Print Assumptions model_log_accepted_text_level.
 
 (* ---------- non-vacuity: a concrete history whose log contains every kind of event the theorems speak about ---------- *)
 Definition nb (i o r h e : bool) := mkNb i o r h e.
@@ -438,3 +485,30 @@ Example ex_run_always_returns :
 Proof.
   apply run_always_returns; [apply SInv_log; apply structural_invariant_reachable | vm_compute; reflexivity | vm_compute; reflexivity].
 Qed.
+
+(* ---------- round 5, non-vacuity ---------- *)
+(* a timer created in onClosed (closing pass, after the time-out was first computed): the wait of that iteration ends when it is due *)
+Definition w_ops := [OAct (APair 1); OOn (mkSe (Cl 1) (SCb KRead) 0 false [ARead 1]); ORecvq [REof];
+   OOn (mkSe (Cl 1) (SCb KClosed) 0 false [ATimer 0 1; AAdv 1; ARmClient 1]); ORun [mkEp 0 [(Cl 1, rd)]; mkEp 7 []]].
+Example ex_wait_premise : forallb op_okb w_ops = true. Proof. vm_compute. reflexivity. Qed.
+Example ex_wait_timeouts :
+  map (fun x => match x with EvWait t => t | _ => 0 end) (filter (fun x => match x with EvWait _ => true | _ => false end) (rev (trace (steps 50 init w_ops))))
+  = [300000; 1; 1].
+Proof. vm_compute. reflexivity. Qed.
+(* wmon rejects a wait without limit while a timer is live, cmt a failure that is not answered by the second wait, and accepts one
+   that is answered after the first (where cmon rejects) *)
+Example ex_wmon_rejects : wmon_run [EvWait (-5); EvCreated (Tm 1) 0 5] = None /\ is_some (wmon_run [EvWait (-1)]) = true.
+Proof. vm_compute. auto. Qed.
+Example ex_cmt_vs_cmon :
+  let late := [EvCb (Cl 1) KClosed 0; EvItem false; EvWait 5; EvRecv 1 0] in
+  is_some (cmt_run late) = true /\ cmon_run late = None /\ cmt_run (EvWait 5 :: EvItem false :: EvWait 5 :: [EvRecv 1 0]) = None.
+Proof. vm_compute. auto. Qed.
+(* kmon: unregistering a live listener without removing it is rejected at the next event; the three legitimate shapes are accepted *)
+Example ex_kmon :
+  kmon_run [EvNow 0; EvCtl CDel (Li 1) 0; EvAccept 1 false] = None /\
+  is_some (kmon_run [EvNow 0; EvRemoved (Li 1); EvCtl CDel (Li 1) 0]) = true /\
+  is_some (kmon_run [EvNow 0; EvSoErr 2 0; EvCtl CDel (Es 2) 0]) = true /\
+  is_some (kmon_run [EvNow 0; EvCb (Cl 3) KClosed 0; EvCtl CDel (Cl 3) 0; EvSend 3 5 (-2) true]) = true /\
+  is_some (kmon_run [EvNow 0; EvCtl CDel (Cl 4) 0; EvIntroRet 4 true; EvDeferred (Cl 4)]) = true.
+Proof. vm_compute. auto. Qed.
+Example ex_demo_accepted_text : accepts_text demo_log = true. Proof. vm_compute. reflexivity. Qed.
